@@ -149,11 +149,16 @@ let handle (line : string) : string =
            let g' = List.map rule_of l in
            let bl = List.map (fun x -> n_of_int (atom_int x)) bis in
            let bi n = List.mem n bl in
-           let model =
-             match pass with
-             | "unroll" -> Some (pass_unroll bi !grammar)
-             | "inline-builtin" -> pass_inline_builtin bi (nat_of_int 200) !grammar
-             | _ -> failwith "U: unknown pass" in
+           (* a '+'-separated sequence of modelled passes, applied left to right (OptPassCompose.psteps) *)
+           let one acc p =
+             match acc with
+             | None -> None
+             | Some gcur ->
+                 (match p with
+                  | "unroll" -> Some (pass_unroll bi gcur)
+                  | "inline-builtin" -> pass_inline_builtin bi (nat_of_int 200) gcur
+                  | _ -> failwith "U: unknown pass") in
+           let model = List.fold_left one (Some !grammar) (String.split_on_char '+' pass) in
            (match model with
             | None -> "MODEL-FUEL"
             | Some gm ->
@@ -161,7 +166,11 @@ let handle (line : string) : string =
                 let find n = List.find_opt (fun r -> r.r_name = n) gm in
                 let bad = List.filter (fun r' -> match find r'.r_name with Some r -> r <> r' | None -> true) user in
                 let missing = List.filter (fun r -> not (List.exists (fun r' -> r'.r_name = r.r_name) user)) gm in
-                let side = (if names_nodup !grammar then "" else " dup-names") in
+                (* hypotheses of the pass theorems (OptPassProof.pass_unroll_sound, OptPassInline.pass_inline_builtin_sound) *)
+                let in_domain = names_nodup !grammar && all_grammar count_ok !grammar && builtins_plain bi !grammar
+                                && not (List.exists (fun r -> int_of_n r.r_name = 2) !grammar)
+                                && int_of_nat (gdepth !grammar) <= 400 in
+                let side = (if in_domain then "" else " outside-domain") in
                 if bad = [] && missing = [] then "SAME" ^ side
                 else "DIFF " ^ String.concat "," (List.map (fun r' -> string_of_int (int_of_n r'.r_name)) (bad @ missing)) ^ side)
        | _ -> failwith "U: arguments")
